@@ -109,3 +109,9 @@ package rag
 //@   loop 0:
 //@     invariant be.batchSize >= 1 && 0 <= i && (i <= len(chunks) || i - be.batchSize < len(chunks)) && mod(i, be.batchSize) == 0
 //@     decreases len(chunks) - i + be.batchSize
+
+// ---- C15: heading level = source level shifted by the offset, clamped to 1..min(max,6) ----
+//@ func (*Chunk) ToMarkdownWithOptions
+//@   property C15
+//@   flags callsites
+//@   callsite strings.Repeat(s, count) requires level_1_to_6: s == "#" ==> 1 <= count && count <= 6
